@@ -28,7 +28,8 @@ RULE = ("per-run seed -> one document-level operation list + one configuration f
         "order, which sub-writer dequeues which job file, queue visibility delays, async poll timing and when the buffered "
         "writer's timer fires relative to caller steps. The final (and per-commit) logical dump must equal the reference model "
         "(the same for every configuration). Non-trivial = >=1 commit and >=1 read-back; distinct = distinct event-log SHA-256."
-        ' Line-level pre-emption in 40% of the buffered/async runs; dense polling of the async replay thread.')
+        ' Line-level pre-emption in 40% of the buffered/async runs; dense polling of the async replay thread.'
+        ' Async runs may start from a populated index, delete by query and race an optimizing lock holder; generated queries through BufferedWriter.searcher(); the program may end right after the last AsyncWriter.commit().')
 ASSUMPTIONS = ["BufferedWriter applies deletes/updates to buffered documents as well (its documented behaviour); the model applies every operation immediately for that front-end",
                "with several caller threads each thread works on its own keys, so the result does not depend on the order in which the buffered writer's lock serialises them",
                "AsyncWriter is driven with the calls it documents as buffered (add, update, delete_by_term)",
